@@ -137,10 +137,11 @@ def clamp_uv(uv, dom):
 def vertices_on_surface(ctx, S, V, dom, sc, rng, key, limit=40):
     pick = V if len(V) <= limit else [V[0], V[-1]] + rng.sample(V, limit - 2)
     for v in pick:
-        uv = clamp_uv(v.uv, dom)
-        if not all(a <= x <= b for x, (a, b) in zip(uv, dom)):
-            ctx.fail(key, 'vertex %d has parameters %r outside the surface domain %r' % (v.id, list(v.uv), dom))
+        if not all(a <= x <= b for x, (a, b) in zip(v.uv, dom)):
+            # (the library itself evaluates at these parameters again, e.g. for the vertex normals of an OBJ export)
+            ctx.fail(key + '/stored-parameter-outside-domain', 'vertex %d stores parameters %r outside the surface domain %r' % (v.id, list(v.uv), dom))
             return False
+        uv = clamp_uv(v.uv, dom)
         if not so.clear_of_knots(S, uv, 1e-9):
             continue
         if not ctx.near(v.data, S.point(uv), 1e-9 * sc, key, 'vertex %d: position is not the surface evaluated at its stored '
